@@ -158,3 +158,7 @@ Definition C05_obs : Type := (list (list N) * list Q)%type.
 Definition C05_model (c : C05_case) : C05_obs :=
   let cs := map codes (fst c) in
   (cs, map (fun ij => maxcov (nth (fst ij) cs []) (nth (snd ij) cs [])) (snd c)).
+
+(* printed form: rationals as (numerator, denominator) so the harness never parses Q notations *)
+Definition C05_enc (o : C05_obs) : list (list N) * list (Z * Z) :=
+  (fst o, map (fun q => (Qnum q, Zpos (Qden q))) (snd o)).
